@@ -435,6 +435,24 @@ inline void arm_watchdog() {
   alarm(limit > 0 ? limit : 300);
 }
 
+// VERIF_PRESAVE=1 (used under ThreadSanitizer, whose death callback must not allocate): the case is written to a
+// "pending" replay file before it runs and the file is removed when the case finishes; a pending file left behind by a
+// process that died is the crash replay.
+inline bool presave() {
+  static const bool on = *env("VERIF_PRESAVE") != 0;
+  return on;
+}
+inline std::string &pending_path() {
+  static std::string p;
+  return p;
+}
+inline void clear_pending() {
+  if (!pending_path().empty()) {
+    unlink(pending_path().c_str());
+    pending_path().clear();
+  }
+}
+
 inline void set_case(const std::string &mode, std::vector<int64_t> tokens, std::string describe) {
   arm_watchdog();
   auto &c = current_case();
@@ -442,6 +460,12 @@ inline void set_case(const std::string &mode, std::vector<int64_t> tokens, std::
   c.tokens = std::move(tokens);
   c.describe = std::move(describe);
   c.message.clear();
+  if (presave()) {
+    clear_pending();
+    c.message = "process died while running this case (sanitizer report in the shard log)";
+    pending_path() = write_replay(c, "pending");
+    c.message.clear();
+  }
 }
 
 // Runs the oracle part of a case; a C++ exception escaping from the code under test is a failure of the case
@@ -458,7 +482,7 @@ std::string guarded(F &&f) {
 }
 
 inline int harness_main(int argc, char **argv, const Harness &h) {
-  if (&__sanitizer_set_death_callback) __sanitizer_set_death_callback(death_callback);
+  if (&__sanitizer_set_death_callback && !presave()) __sanitizer_set_death_callback(death_callback);
   std::string mode = env("VERIF_MODE", "");
   for (int i = 1; i < argc; ++i) {
     std::string a = argv[i];
@@ -505,6 +529,7 @@ inline int harness_main(int argc, char **argv, const Harness &h) {
   }
   bool ok = rc::check("property", [&]() {
     std::string msg = h.run(mode);
+    clear_pending();
     stats().evaluations++;
     if (!msg.empty()) {
       auto &c = current_case();
